@@ -150,3 +150,108 @@ Proof.
   - exact fin_ok_pad_with_zero.
   - exact fin_ok_if.
 Qed.
+
+(** * several [input_block] calls, each with its own closure (BLAKE) *)
+Lemma feed_calls_eqv pieces : forall b b',
+  bb_wf b -> bb_eqv b b' ->
+  snd (feed_calls b pieces) = snd (feed_calls b' pieces)
+  /\ bb_eqv (fst (feed_calls b pieces)) (fst (feed_calls b' pieces)).
+Proof.
+  induction pieces as [|p r IH]; intros b b' W E; cbn [feed_calls fst snd]; [now split|].
+  destruct (input_block_eqv b b' p W E) as [Eo Eb].
+  destruct (IH _ _ (input_block_wf b p W) Eb) as [Eo' Eb'].
+  split; [now rewrite Eo, Eo'|exact Eb'].
+Qed.
+
+Lemma fin_ok_feed_calls {st digest} (F : st -> nat -> nat -> list (list (list N)) -> digest)
+      (P : st -> nat -> nat -> list (list N)) :
+  fin_ok (fun s b => F s (bb_size b) (bb_pos b) (snd (feed_calls b (P s (bb_size b) (bb_pos b))))).
+Proof.
+  intros s b b' W E. destruct (eqv_size_pos _ _ E) as [-> ->].
+  now destruct (feed_calls_eqv (P s (bb_size b) (bb_pos b)) b b' W E) as [-> _].
+Qed.
+
+
+(** * the finalisations of the four crates (Model/Hasher.v) satisfy [fin_ok], and the complete
+    plumbing models satisfy [hasher_ok], for every compression / output function *)
+Section CrateFinOk.
+Context {X digest : Type}.
+Variable dflt : digest.
+Local Open Scope N_scope.
+
+Lemma blake_fin_ok w size isfull (put_block : X -> list N -> N * N -> X) (out : X -> digest) :
+  fin_ok (blake_fin dflt w size isfull put_block out).
+Proof.
+  unfold blake_fin.
+  set (wb := N.to_nat (w / 8)).
+  set (footerlen := (1 + 2 * wb)%nat).
+  set (extra := fun pos : nat => (size <? pos + footerlen)%nat).
+  set (tt := fun (s : X * (N * N)) (pos : nat) => blake_increase_count w (snd s) (N.of_nat pos)).
+  set (position := fun pos : nat => if extra pos then 0%nat else pos).
+  set (t2 := fun (s : X * (N * N)) (pos : nat) => if (position pos =? 0)%nat then (0, 0) else tt s pos).
+  set (P := fun (s : X * (N * N)) (_ pos : nat) =>
+              (if extra pos then [firstn (size - pos) (0x80 :: repeat 0 size)] else [])
+              ++ [skipn (if extra pos then 1%nat else 0%nat)
+                        (firstn ((if extra pos then 1%nat else 0%nat) + (size - footerlen - position pos))
+                                (0x80 :: repeat 0 size));
+                  [N.lor isfull (if (pos + footerlen =? size)%nat then 0x80 else 0)];
+                  be_split wb (snd (tt s pos)) ++ be_split wb (fst (tt s pos))]).
+  set (F := fun (s : X * (N * N)) (_ pos : nat) (emitted : list (list (list N))) =>
+              match emitted, extra pos with
+              | [b1; []; []; b4], true =>
+                  out (fold_left (fun h blk => put_block h blk (t2 s pos)) b4
+                         (fold_left (fun h blk => put_block h blk (tt s pos)) b1 (fst s)))
+              | [[]; []; b4], false => out (fold_left (fun h blk => put_block h blk (t2 s pos)) b4 (fst s))
+              | _, _ => dflt
+              end).
+  exact (fin_ok_feed_calls F P).
+Qed.
+
+Lemma groestl_fin_ok (input : X -> list N -> X) (out : X -> digest) : fin_ok (groestl_fin input out).
+Proof.
+  exact (fin_ok_len_padding 8
+           (fun s _ _ blocks => out (fold_left input blocks (fst s)))
+           (fun s size pos => wrap 64 (snd s + 1 + (if (size - pos <=? 8)%nat then 1 else 0)))).
+Qed.
+
+Lemma jh_fin_ok (input : X -> list N -> X) (out : X -> digest) : fin_ok (jh_fin dflt input out).
+Proof.
+  unfold jh_fin.
+  apply (fin_ok_if (fun _ _ pos => (pos =? 0)%nat)).
+  - exact (fin_ok_len_padding 8 (fun s _ _ blocks => out (fold_left input blocks (fst s)))
+                              (fun s _ _ => wrap 64 (snd s * 8))).
+  - apply (fin_ok_if (fun _ size pos => (size <=? pos)%nat)).
+    + intros s b b' _ _. reflexivity.
+    + exact (fin_ok_pad80 (fun s _ _ blk =>
+               out (input (input (fst s) blk) (copy_at (repeat 0 64%nat) 56 (be_split 8 (wrap 64 (snd s * 8))))))).
+Qed.
+
+Lemma skein_fin_ok size (process_block : X * (N * N) -> list N -> nat -> X * (N * N)) (output : X -> digest) :
+  fin_ok (skein_fin dflt size process_block output).
+Proof.
+  exact (fin_ok_pad_with_zero
+           (fun s _ pos r => match r with
+                             | Some (_, blk) =>
+                                 output (fst (process_block
+                                   (fst s, (fst (snd s), N.lor (snd (snd s)) (N.shiftl 1 63))) blk pos))
+                             | None => dflt end)).
+Qed.
+
+
+Lemma crate_hashers_ok :
+  (forall w size isfull (iv : X) put_block (out : X -> digest), (0 < size)%nat ->
+      hasher_ok (blake_hasher dflt w size isfull iv put_block out))
+  /\ (forall size (iv : X) input (out : X -> digest), (0 < size)%nat ->
+      hasher_ok (groestl_hasher size iv input out))
+  /\ (forall (iv : X) input (out : X -> digest), hasher_ok (jh_hasher dflt iv input out))
+  /\ (forall size (init : X * (N * N)) process_block (output : X -> digest), (0 < size)%nat ->
+      hasher_ok (skein_hasher dflt size init process_block output)).
+Proof.
+  split; [|split; [|split]]; intros.
+  - apply blake_shape_ok; [assumption|apply blake_fin_ok].
+  - apply groestl_shape_ok; [assumption|apply groestl_fin_ok].
+  - apply jh_shape_ok; [apply Nat.lt_0_succ|apply jh_fin_ok].
+  - apply skein_shape_ok; [assumption|apply skein_fin_ok].
+Qed.
+
+End CrateFinOk.
